@@ -8,7 +8,7 @@
 // Only the public API is used, so that the harness keeps compiling on refactored trees.
 // Every failure carries the ids of the properties whose text it contradicts (tags); a check of property X reports only failures tagged X.
 //
-// Bound: two queues ("a": full alphabet, "bb": reduced alphabet) ; every history of exactly DEPTH operations (checks after every step, so every
+// Bound: two queues ("a": full alphabet, "bb": reduced alphabet) ; every history of a fixed number of operations (checks after every step, so every
 // shorter history is covered) out of the alphabet in `all_ops()`; payload sizes 0, 3..7 and 70 000 bytes (the last spills over blocks, every
 // second one rolls over to a new WAL file); persist policies: Always(Flush) for every history, DoNothing / Always(FlushAndFsync) for a third each.
 #[cfg(test)]
@@ -29,7 +29,7 @@ mod verif_enum_hist {
     #[derive(Clone, Copy, Debug, PartialEq)]
     enum Batch { Small, EmptyPayload, TwoLastEmpty, NoRecords, Big }
     #[derive(Clone, Copy, Debug, PartialEq)]
-    enum Tr { BelowStart, Mid, Last, Future }
+    enum Tr { BelowStart, FarBelow, Mid, Last, Future }
     #[derive(Clone, Copy, Debug, PartialEq)]
     enum Op { Create(usize), Delete(usize), Append(usize, Pos, Batch), Truncate(usize, Tr), Reopen }
     #[derive(Clone, Copy, Debug, PartialEq)]
@@ -42,7 +42,7 @@ mod verif_enum_hist {
             Op::Create(0), Op::Delete(0),
             Op::Append(0, Auto, Small), Op::Append(0, Auto, EmptyPayload), Op::Append(0, Auto, TwoLastEmpty), Op::Append(0, Auto, NoRecords), Op::Append(0, Auto, Big),
             Op::Append(0, Next, Small), Op::Append(0, Last, Small), Op::Append(0, Past, Small), Op::Append(0, Future, Small), Op::Append(0, Future, TwoLastEmpty),
-            Op::Truncate(0, Tr::BelowStart), Op::Truncate(0, Tr::Mid), Op::Truncate(0, Tr::Last), Op::Truncate(0, Tr::Future),
+            Op::Truncate(0, Tr::BelowStart), Op::Truncate(0, Tr::FarBelow), Op::Truncate(0, Tr::Mid), Op::Truncate(0, Tr::Last), Op::Truncate(0, Tr::Future),
             Op::Create(1), Op::Delete(1), Op::Append(1, Auto, Small), Op::Append(1, Auto, Big), Op::Truncate(1, Tr::Last),
         ]
     }
@@ -51,7 +51,7 @@ mod verif_enum_hist {
         use Batch::*; use Pos::*;
         vec![
             Op::Reopen, Op::Append(0, Auto, Small), Op::Append(0, Auto, Big), Op::Append(0, Future, Small),
-            Op::Truncate(0, Tr::Mid), Op::Truncate(0, Tr::Last), Op::Truncate(0, Tr::Future), Op::Append(1, Auto, Big), Op::Truncate(1, Tr::Last),
+            Op::Truncate(0, Tr::Mid), Op::Truncate(0, Tr::Last), Op::Truncate(0, Tr::Future), Op::Truncate(0, Tr::FarBelow), Op::Append(1, Auto, Big), Op::Truncate(1, Tr::Last), Op::Delete(1),
         ]
     }
 
@@ -179,7 +179,8 @@ mod verif_enum_hist {
         Ok(())
     }
     /// C06 (same statement as E-c06) + C17 (only WAL-named regular files besides the strays, strays untouched)
-    fn check_directory(log: &MultiRecordLog, dir: &Path, m: &Model, file_at_call: u64, after_gc_call: bool) -> Result<(), Fail> {
+    fn check_directory(log: &MultiRecordLog, dir: &Path, m: &Model, file_at_call: u64, after_gc_call: bool, ever: &mut std::collections::BTreeSet<u64>) -> Result<(), Fail> {
+        for f in wal_files(dir) { ever.insert(f.0); }
         let img = dir_image(dir);
         for (k, v) in &img {
             let stray = match k.as_str() { "notes.txt" => Some(&b"keep me"[..]), "wal-123" => Some(&b"not a wal file"[..]), "wal-00000000000000099999/" => Some(&b""[..]), _ => None };
@@ -196,7 +197,9 @@ mod verif_enum_hist {
         if on_disk != log.list_file_numbers() {
             return fail(&["C06"], format!("directory holds WAL files {on_disk:?}, the log tracks {:?}", log.list_file_numbers()));
         }
-        if !on_disk.windows(2).all(|w| w[1] == w[0] + 1) { return fail(&["C06"], format!("WAL files {on_disk:?} are not a contiguous run")); }
+        // contiguous: no WAL file that was ever seen in this directory is missing between the oldest and the newest one (numbering gaps are allowed, C17)
+        let run: Vec<u64> = ever.range(on_disk[0]..=*on_disk.last().unwrap()).copied().collect();
+        if on_disk != run { return fail(&["C06"], format!("WAL files {on_disk:?} are not a contiguous run (files seen so far: {ever:?})")); }
         let oldest_needed = m.values().filter_map(|q| q.recs.first().map(|r| r.3)).min();
         let bound = match oldest_needed { Some(f) => f.min(file_at_call), None => file_at_call };
         if on_disk[0] < bound { return fail(&["C06"], format!("file {} kept although nothing retained lives before file {bound} (files {on_disk:?})", on_disk[0])); }
@@ -242,7 +245,7 @@ mod verif_enum_hist {
         copy_dir(dir, img.path());
         match MultiRecordLog::open_with_prefs(img.path(), policy(pol)) {
             Ok(l2) => check_recovered(&observe(&l2), m, "C03").map_err(|f| Fail { tags: f.tags, detail: format!("process-crash image (every call so far is persisted under {pol:?}): {}", f.detail), wrong: f.wrong }),
-            Err(e) => fail(&["C03", "C10"], format!("process-crash image: open fails: {e:?}")),
+            Err(e) => Err(Fail { tags: vec!["C03", "C10"], detail: format!("process-crash image: open fails: {e:?}"), wrong: m.keys().copied().collect() }),
         }
     }
 
@@ -256,6 +259,7 @@ mod verif_enum_hist {
         let mut log = match MultiRecordLog::open_with_prefs(dir, policy(pol)) { Ok(l) => l, Err(e) => return fail(&["C10", "C17"], format!("open of a fresh directory with foreign entries fails: {e:?}")) };
         let mut m: Model = Model::new();
         let mut seq: u64 = 0;
+        let mut ever_files: std::collections::BTreeSet<u64> = wal_files(dir).into_iter().map(|f| f.0).collect();
         let mut all_persisted = true; // every call so far is persisted (policy Always, or create/delete, under which everything before is persisted too)
         for (i, op) in hist.iter().enumerate() {
             let step = format!("step {} {:?}", i + 1, op);
@@ -297,6 +301,7 @@ mod verif_enum_hist {
                     Some(qm) => {
                         let t = match tr {
                             Tr::BelowStart => qm.recs.first().map(|r| r.0).unwrap_or(qm.start).checked_sub(1),
+                            Tr::FarBelow => qm.next().checked_sub(3), // a stale request when the queue is empty, an ordinary partial truncation otherwise
                             Tr::Mid => if qm.recs.len() >= 2 { Some(qm.recs[qm.recs.len() / 2 - 1].0) } else { None },
                             Tr::Last => qm.recs.last().map(|r| r.0),
                             Tr::Future => Some(qm.next() + 3),
@@ -316,7 +321,7 @@ mod verif_enum_hist {
             match *op {
                 Op::Reopen => {
                     drop(log);
-                    log = match MultiRecordLog::open_with_prefs(dir, policy(pol)) { Ok(l) => l, Err(e) => return fail(&["C01", "C10"], format!("{step}: open after a clean shutdown fails: {e:?}")) };
+                    log = match MultiRecordLog::open_with_prefs(dir, policy(pol)) { Ok(l) => l, Err(e) => return Err(Fail { tags: vec!["C01", "C10"], detail: format!("{step}: open after a clean shutdown fails: {e:?}"), wrong: m.keys().copied().collect() }) };
                     let got = observe(&log);
                     check_recovered(&got, &m, "C01").map_err(|f| Fail { tags: f.tags, detail: format!("{step}: {}", f.detail), wrong: f.wrong })?;
                     all_persisted = true;
@@ -367,7 +372,12 @@ mod verif_enum_hist {
                             wal_bytes = Some(o.wal_bytes_written);
                         }
                         (Exp::Rejected("Past"), Err(AppendError::Past)) | (Exp::Rejected("MissingQueue"), Err(AppendError::MissingQueue(_))) => { wal_bytes = Some(0); }
-                        (_, r) => return fail(if no_trace { &["C05", "C13"] } else { &["C05"] }, format!("{step} (position_opt {pos_opt:?}, {} records): returns {r:?}, the specification says {exp:?}", payloads.len())),
+                        (_, r) => {
+                            let mut tags = if no_trace { vec!["C05", "C13"] } else { vec!["C05"] };
+                            // C04: a position at or below one already handed out is handed out again
+                            if let (Ok(o), Some(qm)) = (&r, m.get(QUEUES[q])) { if o.last_position.map(|l| l < qm.next()).unwrap_or(false) { tags.push("C04"); } }
+                            return fail(&tags, format!("{step} (position_opt {pos_opt:?}, {} records): returns {r:?}, the specification says {exp:?}", payloads.len()));
+                        }
                     }
                 }
                 Op::Truncate(q, _) => {
@@ -430,7 +440,7 @@ mod verif_enum_hist {
                 if used != names { return fail(&["C16"], format!("{step}: every queue is empty but memory_used_bytes is {used}, the names-only baseline is {names}")); }
             }
             let gc_call = matches!(*op, Op::Reopen) || matches!(exp, Exp::Truncated(_) | Exp::Deleted);
-            check_directory(&log, dir, &m, cur_file, gc_call).map_err(|f| Fail { tags: f.tags, detail: format!("{step}: {}", f.detail), wrong: f.wrong })?;
+            check_directory(&log, dir, &m, cur_file, gc_call, &mut ever_files).map_err(|f| Fail { tags: f.tags, detail: format!("{step}: {}", f.detail), wrong: f.wrong })?;
             // ---- C13: no trace in the WAL files, reported bytes 0
             if no_trace {
                 if wal_bytes != Some(0) { return fail(&["C13", "C15"], format!("{step} is rejected / a no-op but reports wal_bytes_written {wal_bytes:?}")); }
